@@ -9,19 +9,20 @@ From Gv Require Import lib.Bytes lib.Json lib.Gql lib.Exec
      C01.ProofsBase C01.ProofsFuel C01.ProofsSplit C01.ProofsSim C01.ProofsJoin C01.ProofsOverlap
      C01.ProofsTwoStep C01.ProofsViol C01.ProofsCtxBase C01.ProofsCtx C01.ProofsTwoStepWf C01.ProofsPlanAlg
      C01.ProofsPlan C01.ProofsPlanOk C01.ProofsDedup C01.ProofsListHop
-     C01.ProofsTvStatic C01.ProofsTvDefs C01.ProofsTvHidden C01.ProofsPlanGen C01.ProofsPlan2 C01.ProofsFuelSuff C01.ProofsSelEq C01.ProofsSelMerge.
+     C01.ProofsTvStatic C01.ProofsTvDefs C01.ProofsTvHidden C01.ProofsPlanGen C01.ProofsPlan2 C01.ProofsFuelSuff C01.ProofsSelEq C01.ProofsSelMerge C01.ProofsNKeyDefs C01.ProofsNKeyExec.
 Open Scope N_scope.
 
-Notation fetch3 := (list (nat * list name) * nat * list name)%type.
+Notation fetch3 := (list (nat * list (name * list name)) * nat * list name)%type.
 Inductive pitem :=
 | PKeep (s : selection)
 | PDown (a : option name) (n : name) (args : list argument) (sh : fshape) (T : name) (sub : ptree)
 | PAbs (a : option name) (n : name) (args : list argument) (sh : fshape) (T : name)
        (csel rsel : list selection) (alts : list (name * bool * ptree))
 with ptree :=
-| PT (items : list (nat * pitem)) (fetches : list (list (nat * list name) * nat * list name)).
+| PT (items : list (nat * pitem)) (fetches : list (list (nat * list (name * list name)) * nat * list name)).
 (* fetch: (deps, subgraph, representation fields); deps = [(source, the representation fields that source is asked for); ..]:
-   an entity fetch may read its representation off several earlier sources (key from one, @requires inputs from another) *)
+   an entity fetch may read its representation off several earlier sources (key from one, @requires inputs from another);
+   a representation field is (name, inner): inner = [] a leaf, else a NESTED key field  name { inner leaves }  (ProofsNKeyDefs) *)
 
 Definition pt_items (pt : ptree) := match pt with PT items _ => items end.
 Definition pt_fetches (pt : ptree) := match pt with PT _ fetches => fetches end.
@@ -58,14 +59,28 @@ with pt_client (pt : ptree) : list selection :=
   end.
 
 (* the key selections source [t] is asked for: those of the fetches that read their representation off it *)
-Definition deps_on (t : nat) (f : fetch3) : bool := existsb (fun d : nat * list name => Nat.eqb (fst d) t) (fst (fst f)).
-Definition keys_of (t : nat) (f : fetch3) : list name :=
-  flat_map snd (filter (fun d : nat * list name => Nat.eqb (fst d) t) (fst (fst f))).
+Notation dep3 := (nat * list (name * list name))%type.
+Definition deps_on (t : nat) (f : fetch3) : bool := existsb (fun d : dep3 => Nat.eqb (fst d) t) (fst (fst f)).
+Definition keys_of (t : nat) (f : fetch3) : list (name * list name) :=
+  flat_map snd (filter (fun d : dep3 => Nat.eqb (fst d) t) (fst (fst f))).
+(* the leaf fields; the nested fields, one entry per name *)
+Definition is_nil {A} (l : list A) : bool := match l with [] => true | _ => false end.
+Definition kl_of (all : list (name * list name)) : list name := map fst (filter (fun x => is_nil (snd x)) all).
+Fixpoint kn_dedup (seen : list name) (all : list (name * list name)) : nkspec :=
+  match all with
+  | [] => []
+  | x :: r => if is_nil (snd x) || mem_bytes (fst x) seen then kn_dedup seen r else x :: kn_dedup (fst x :: seen) r
+  end.
+Definition kn_of (all : list (name * list name)) : nkspec := kn_dedup [] all.
 Definition keys_from (t : nat) (fetches : list (fetch3)) : list selection :=
   match filter (deps_on t) fetches with
   | [] => []
-  | fs => key_sels (flat_map (keys_of t) fs)
+  | fs => key_sels (kl_of (flat_map (keys_of t) fs)) ++ nsels (kn_of (flat_map (keys_of t) fs))
   end.
+(* the nested / leaf representation fields of one fetch *)
+Definition fetch_kn (deps : list dep3) : nkspec := kn_of (flat_map snd deps).
+Definition fetch_kl (deps : list dep3) (ks : list name) : list name :=
+  filter (fun k => negb (mem_bytes k (map fst (fetch_kn deps)))) ks.
 
 (* what the source that produced the object is asked for at a position *)
 Fixpoint item_proj (it : pitem) : selection :=
@@ -143,11 +158,11 @@ Section Gw3.
   Notation sub_at' := (sub_at sc subs).
 
   (* one entity fetch for one object: the members of the entity object, and the errors of the response *)
-  Definition fetch_one (T : name) (sel : list selection) (l1 : list (bytes * json)) (si : nat) (ks : list name)
+  Definition fetch_one (T : name) (sel : list selection) (l1 : list (bytes * json)) (si : nat) (ks : list name) (kn : nkspec)
     : option (list (bytes * json)) * list xerr :=
     let resp := execute (if add_tn tn sel then S f2 else f2) (sub_at' si) U Sub
                         (entities_doc (rep_vd :: vdsM) T (ent_sel3 tn sel) frags) None
-                        (JObj ((s_representations, JArr [repr_from ks l1]) :: supM)) in
+                        (JObj ((s_representations, JArr [repr_from_n ks kn l1]) :: supM)) in
     match rs_data resp with
     | JObj [(_, JArr [x])] =>
       (match (if add_tn tn sel then strip_tn x else x) with JObj lb => Some lb | _ => None end, rs_errs resp)
@@ -166,8 +181,8 @@ Section Gw3.
     match fs with
     | [] => (srcs, [])
     | (deps, si, ks) :: r =>
-      let '(o, e) := if forallb (fun d : nat * list name => negb (is_none (nth (fst d) srcs None))) deps
-                     then fetch_one T (src_proj j items all) (merged srcs) si ks
+      let '(o, e) := if forallb (fun d : dep3 => negb (is_none (nth (fst d) srcs None))) deps
+                     then fetch_one T (src_proj j items all) (merged srcs) si (fetch_kl deps ks) (fetch_kn deps)
                      else (None, []) in
       let '(os, es) := fetch_all T items all (srcs ++ [o]) (S j) r in
       (os, e ++ es)
@@ -287,7 +302,20 @@ End Gw3.
 
 (* ---- the universe-free validator of plan trees ---- *)
 Definition plain_field (s : selection) : bool := match s with SField _ _ _ [] _ => true | _ => false end.
-Definition fetch_keys (fetches : list (fetch3)) : list name := s_typename :: flat_map snd fetches.
+(* the LEAF representation fields of the fetches of a position; the names of the nested ones *)
+Definition fetch_keys (fetches : list (fetch3)) : list name := s_typename :: flat_map (fun f : fetch3 => fetch_kl (fst (fst f)) (snd f)) fetches.
+Definition fetch_nnames (fetches : list (fetch3)) : list name := flat_map (fun f : fetch3 => map fst (fetch_kn (fst (fst f)))) fetches.
+Definition names_eqb (p q : list name) : bool :=
+  (fix gi (p q : list name) : bool := match p, q with [] , [] => true | u :: p', v :: q' => bytes_eqb u v && gi p' q' | _, _ => false end) p q.
+Definition nk_eqb (a b : nkspec) : bool :=
+  (fix go (a b : nkspec) : bool :=
+     match a, b with
+     | [], [] => true
+     | x :: a', y :: b' => bytes_eqb (fst x) (fst y) &&
+                           names_eqb (snd x) (snd y) &&
+                           go a' b'
+     | _, _ => false
+     end) a b.
 (* a client field whose response key is the name of a representation field is that very field *)
 Definition item_unaliased (K : list name) (it : pitem) : bool :=
   negb (mem_bytes (item_key it) K) ||
@@ -309,16 +337,40 @@ Definition has_tn_sel (l : list selection) : bool :=
   existsb (fun s => match s with SField None n [] [] [] => bytes_eqb n s_typename | _ => false end) l.
 Definition abs_fuel (csel rsel : list selection) : nat := S (sels_size csel + sels_size rsel).
 
+Lemma names_eqb_eq : forall p q, names_eqb p q = true -> p = q.
+Proof.
+  induction p as [|u p IH]; intros [|v q] H; cbn in H; try discriminate; [reflexivity|].
+  apply andb_true_iff in H. destruct H as [H1 H2]. apply bytes_eqb_eq in H1. rewrite (IH q H2). congruence.
+Qed.
+Lemma nk_eqb_eq : forall a b, nk_eqb a b = true -> a = b.
+Proof.
+  induction a as [|[x xi] a IH]; intros [|[y yi] b] H; cbn in H; try discriminate; [reflexivity|].
+  apply andb_true_iff in H. destruct H as [H H3]. apply andb_true_iff in H. destruct H as [H1 H2].
+  apply bytes_eqb_eq in H1. apply names_eqb_eq in H2. rewrite (IH b H3). congruence.
+Qed.
+
 Section Static3.
   Variables (sc : schema) (subs : list schema) (frags : list fragment) (vdsM : list vardef) (supM : list (bytes * json)).
   Variable kq : nat.
   Variable ab : bool.      (* positions resolved per runtime type ([PAbs]) allowed *)
   Variable decls : list (name * list name).
   Variable rdecls : list rdecl.
+  Variable ndecls : list (name * (list name * nkspec)).   (* type, the nested key declared for it: leaf part, nested part *)
   Variable tn : bool.
   Notation vars := (pvars vdsM supM).
   Notation Q := (s_query sc).
   Notation sub_at' := (sub_at sc subs).
+
+  (* the representation identifies the entity: a declared flat key among its leaf fields and no nested field, or the declared
+     nested key: its leaf part among the leaf fields, its nested part exactly the nested fields *)
+  Definition key_static_b (T : name) (kl : list name) (kn : nkspec) : bool :=
+    (is_nil kn && key_covered decls T kl) ||
+    existsb (fun d : name * (list name * nkspec) => bytes_eqb (fst d) T && names_incl (fst (snd d)) kl && nk_eqb kn (snd (snd d))) ndecls.
+  (* every leaf representation field is a field of a declared key (flat, or the leaf part of the nested one) or a declared @requires input *)
+  Definition repr_fields_ok_n (T : name) (kl : list name) : bool :=
+    forallb (fun x => existsb (fun d : name * list name => bytes_eqb (fst d) T && mem_bytes x (snd d)) decls ||
+                      existsb (fun rd : rdecl => bytes_eqb (fst (fst rd)) T && mem_bytes x (snd rd)) rdecls ||
+                      existsb (fun d : name * (list name * nkspec) => bytes_eqb (fst d) T && mem_bytes x (fst (snd d))) ndecls) kl.
 
   Definition field_ty_ok (T : name) (n : name) (sh : fshape) (T' : name) : bool :=
     match find_type T (s_types sc) with
@@ -334,12 +386,15 @@ Section Static3.
     match fs with
     | [] => true
     | (deps, si, ks) :: r =>
-      (negb (is_none (hd_error deps)) && forallb (fun d : nat * list name => Nat.ltb (fst d) j) deps &&
-       names_incl ks (flat_map snd deps) && names_incl (flat_map snd deps) ks) && Nat.ltb si (length subs) &&
-      key_covered decls T ks && repr_fields_ok decls rdecls T ks &&
+      (negb (is_none (hd_error deps)) && forallb (fun d : dep3 => Nat.ltb (fst d) j) deps &&
+       names_incl ks (map fst (flat_map snd deps)) && names_incl (map fst (flat_map snd deps)) ks) && Nat.ltb si (length subs) &&
+      key_static_b T (fetch_kl deps ks) (fetch_kn deps) && repr_fields_ok_n T (fetch_kl deps ks) &&
+      (* a name is a leaf or a nested field, not both; all entries of a nested field are the same *)
+      forallb (fun x : name * list name => if is_nil (snd x) then negb (mem_bytes (fst x) (map fst (fetch_kn deps)))
+                                           else existsb (fun y : name * list name => nk_eqb [x] [y]) (fetch_kn deps)) (flat_map snd deps) &&
       sels_noent (src_proj j items all) &&
       req_ok_b (sub_at' si) frags vars not_repr kq T (src_proj j items all) &&
-      reqs_static_b rdecls T (src_proj j items all) ks &&
+      reqs_static_b rdecls T (src_proj j items all) (fetch_kl deps ks) &&
       fetches_static_b T items all (S j) r
     end.
 
@@ -353,6 +408,8 @@ Section Static3.
         names_distinct (map (fun ti => item_key (snd ti)) items) &&
         forallb (fun ti => Nat.leb (fst ti) (length fetches)) items &&
         forallb (fun ti => item_unaliased (fetch_keys fetches) (snd ti)) items &&
+        (* a nested key field is not selected by the client at this position, nor a leaf representation field *)
+        forallb (fun k => negb (mem_bytes k (map (fun ti => item_key (snd ti)) items)) && negb (mem_bytes k (fetch_keys fetches))) (fetch_nnames fetches) &&
         fetches_static_b T items fetches 1%nat fetches &&
         forallb (fun ti => item_static_b k' T (snd ti)) items
       end
@@ -400,7 +457,12 @@ Section Static3.
     item_static_b k Q (r3_item d).
 
   (* THE VALIDATOR OF PLAN TREES *)
+  (* at most one nested key per type; its nested fields and their inner names are distinct *)
+  Definition ndecls_wf_b : bool :=
+    names_distinct (map fst ndecls) &&
+    forallb (fun d : name * (list name * nkspec) => names_distinct (map fst (snd (snd d))) && forallb ninner_distinct_b (snd (snd d))) ndecls.
   Definition tvg_static_b (k : nat) (ds : list rfield3) : bool :=
+    ndecls_wf_b &&
     forallb (config_wf_b sc) subs &&
     names_distinct (map r3_key ds) &&
     forallb (fun vd => not_repr (vd_name vd)) vdsM &&
@@ -408,9 +470,12 @@ Section Static3.
 End Static3.
 (* the validator of plan trees without / with positions resolved per runtime type *)
 Definition tv3_static_b sc subs frags vdsM supM kq decls rdecls k ds : bool :=
-  tvg_static_b sc subs frags vdsM supM kq false decls rdecls k ds.
+  tvg_static_b sc subs frags vdsM supM kq false decls rdecls [] k ds.
 Definition tv4_static_b sc subs frags vdsM supM kq decls rdecls k ds : bool :=
-  tvg_static_b sc subs frags vdsM supM kq true decls rdecls k ds.
+  tvg_static_b sc subs frags vdsM supM kq true decls rdecls [] k ds.
+(* ... and with keys with one level of nesting ([ndecls]: per type the nested key declared for it) *)
+Definition tv5_static_b sc subs frags vdsM supM kq decls rdecls ndecls k ds : bool :=
+  tvg_static_b sc subs frags vdsM supM kq true decls rdecls ndecls k ds.
 
 (* ---- fuel: every selection list a plan tree executes (recursively) ---- *)
 Fixpoint pt_need (sc : schema) (pt : ptree) : nat :=
@@ -464,6 +529,18 @@ Definition types_ok_b (sc : schema) (U : universe) : bool := forallb (fun e => d
 Definition univ4_contract_b (sc : schema) (subs : list schema) (decls : list (name * list name)) (rdecls : list rdecl) (U : universe) : bool :=
   univ3_contract_b sc subs decls rdecls U && types_ok_b sc U.
 
+(* nested keys: the declared nested key identifies the entities of its type; its leaf part are plain non-null leaves,
+   its nested part references to existing entities with plain non-null inner leaves *)
+Definition nent_contract_b (sc : schema) (ndecls : list (name * (list name * nkspec))) (U : universe) (e : entity) : bool :=
+  forallb (fun d : name * (list name * nkspec) =>
+             negb (bytes_eqb (fst d) (en_type e)) ||
+             (forallb (key_field_ok sc e) (fst (snd d)) && forallb (nkey_ok_b sc U e) (snd (snd d)))) ndecls.
+Definition nkey_contract_b (sc : schema) (ndecls : list (name * (list name * nkspec))) (U : universe) : bool :=
+  nkey_consistent ndecls U && forallb (nent_contract_b sc ndecls U) U.
+Definition univ5_contract_b (sc : schema) (subs : list schema) (decls : list (name * list name)) (rdecls : list rdecl)
+           (ndecls : list (name * (list name * nkspec))) (U : universe) : bool :=
+  univ4_contract_b sc subs decls rdecls U && nkey_contract_b sc ndecls U.
+
 (* ---- the statements of the induction over plan trees ---- *)
 Section Spec3.
   Variable U : universe.
@@ -472,6 +549,7 @@ Section Spec3.
   Variable tn : bool.
   Variable decls : list (name * list name).
   Variable rdecls : list rdecl.
+  Variable ndecls : list (name * (list name * nkspec)).
   Variable ab : bool.
   Notation vars := (pvars vdsM supM).
 
@@ -497,7 +575,7 @@ Section Spec3.
      returns for the client's selection; a projection that is already null makes the client's selection null *)
   Definition PS_at (k : nat) : Prop :=
     forall (T : name) (pt : ptree) (e : entity) (p : list pel),
-      pt_static_b sc subs [] vdsM supM kq ab decls rdecls k T pt = true ->
+      pt_static_b sc subs [] vdsM supM kq ab decls rdecls ndecls k T pt = true ->
       In e U -> en_type e = T ->
       (pt_need sc pt <= f2)%nat ->
       match mex f2 T e (pt_proj pt) p with
@@ -512,7 +590,7 @@ Section Spec3.
   Definition FL_at (k : nat) : Prop :=
     forall (T : name) (e : entity) (a : option name) (n : name) (args : list argument) (sh : fshape) (T' : name) (sub : ptree)
            (p q : list pel),
-      item_static_b sc subs [] vdsM supM kq ab decls rdecls k T (PDown a n args sh T' sub) = true ->
+      item_static_b sc subs [] vdsM supM kq ab decls rdecls ndecls k T (PDown a n args sh T' sub) = true ->
       In e U -> en_type e = T ->
       (item_need sc (PDown a n args sh T' sub) <= f2)%nat ->
       sres_weq (tr3 k (response_name a n) sh T' sub (mex f2 T e [SField a n args [] (pt_proj sub)] q))
@@ -522,7 +600,7 @@ Section Spec3.
   Definition FA_at (k : nat) : Prop :=
     forall (T : name) (e : entity) (a : option name) (n : name) (args : list argument) (sh : fshape) (T' : name)
            (csel rsel : list selection) (alts : list (name * bool * ptree)) (p q : list pel),
-      item_static_b sc subs [] vdsM supM kq ab decls rdecls k T (PAbs a n args sh T' csel rsel alts) = true ->
+      item_static_b sc subs [] vdsM supM kq ab decls rdecls ndecls k T (PAbs a n args sh T' csel rsel alts) = true ->
       In e U -> en_type e = T ->
       (item_need sc (PAbs a n args sh T' csel rsel alts) <= f2)%nat ->
       sres_weq (tr3a k (response_name a n) sh alts (mex f2 T e [SField a n args [] rsel] q))
